@@ -100,6 +100,26 @@ def compileDateTime (tm : Tmpl) (cu : Culture) (text : Text) : R Pat :=
     else .error .invalidPattern
   | _ => steppedOf (compileCustom (.datetime tm) cu text)
 
+/-- `_AnnualDatePatternParser.parse_pattern`: `G` is the shared ISO pattern `MM'-'dd` (invariant culture) -/
+def compileAnnual (tm td : Int) (cu : Culture) (text : Text) : R Pat :=
+  match text with
+  | [] => .error .invalidPattern
+  | [c] =>
+    if c = 'G' then steppedOf (compileCustom (.annual tm td) invariantCulture "MM'-'dd".toList)
+    else .error .invalidPattern
+  | _ => steppedOf (compileCustom (.annual tm td) cu text)
+
+/-- `_DurationPatternParser.parse_pattern`: `o` = `-D:hh:mm:ss.FFFFFFFFF`, `j` = `-H:mm:ss.FFFFFFFFF` (shared
+    patterns of the invariant culture) -/
+def compileDuration (cu : Culture) (text : Text) : R Pat :=
+  match text with
+  | [] => .error .invalidPattern
+  | [c] =>
+    if c = 'o' then steppedOf (compileCustom .duration invariantCulture "-D:hh:mm:ss.FFFFFFFFF".toList)
+    else if c = 'j' then steppedOf (compileCustom .duration invariantCulture "-H:mm:ss.FFFFFFFFF".toList)
+    else .error .invalidPattern
+  | _ => steppedOf (compileCustom .duration cu text)
+
 /-- the template value a LocalDateTime pattern object parses with: the built-in patterns behind the standard
     letters `o O r R s S` keep the default template whatever template was asked for -/
 def effTmpl (tm : Tmpl) (text : Text) : Tmpl :=
@@ -174,5 +194,7 @@ def compile (ty : PType) (cu : Culture) (text : Text) : R Pat :=
   | .date => compileDate cu text
   | .offset => compileOffset cu text
   | .datetime tm => compileDateTime tm cu text
+  | .annual tm td => compileAnnual tm td cu text
+  | .duration => compileDuration cu text
 
 end Pyoda.Text
